@@ -66,6 +66,26 @@ pub enum AddBlockResult {
     FailedNotValid,
 }
 
+// verification hook (only compiled with --cfg saito_verif): counts the steps of
+// the wind/unwind dispatcher of one `validate` call and panics once they exceed
+// the bound 4 * (|new_chain| + |old_chain|) + 8, so that non-termination of block
+// processing becomes a deterministic verdict.
+#[cfg(saito_verif)]
+thread_local! {
+    pub static VERIF_WIND_STEPS: std::cell::Cell<(u64, u64)> = std::cell::Cell::new((0, u64::MAX));
+}
+#[cfg(saito_verif)]
+fn verif_wind_step() {
+    VERIF_WIND_STEPS.with(|c| {
+        let (n, limit) = c.get();
+        c.set((n + 1, limit));
+        if n + 1 > limit {
+            c.set((0, u64::MAX));
+            panic!("VERIF_STEP_LIMIT: wind/unwind dispatcher exceeded {} steps", limit);
+        }
+    });
+}
+
 #[derive(Debug)]
 pub enum WindingResult {
     Wind(usize, bool, WalletUpdateStatus),
@@ -1134,6 +1154,9 @@ impl Blockchain {
             old_chain.len()
         );
 
+        #[cfg(saito_verif)]
+        VERIF_WIND_STEPS
+            .with(|c| c.set((0, 4 * (new_chain.len() + old_chain.len()) as u64 + 8)));
         let previous_block_hash;
         let mut wallet_update_status = WALLET_NOT_UPDATED;
         let has_gt;
@@ -1293,6 +1316,9 @@ impl Blockchain {
             "wind_chain: current_wind_index : {:?} new_chain_len: {:?} old_chain_len: {:?} failed : {:?}",
             current_wind_index,new_chain.len(),old_chain.len(), wind_failure
         );
+
+        #[cfg(saito_verif)]
+        verif_wind_step();
 
         // if we are winding a non-existent chain with a wind_failure it
         // means our wind attempt failed, and we should move directly into
@@ -1555,6 +1581,9 @@ impl Blockchain {
             "unwind_chain: current_wind_index : {:?} new_chain_len: {:?} old_chain_len: {:?} failed : {:?}",
             current_unwind_index,new_chain.len(),old_chain.len(), wind_failure
         );
+        #[cfg(saito_verif)]
+        verif_wind_step();
+
         let block_id;
         let block_hash;
         let mut wallet_updated = WALLET_NOT_UPDATED;
